@@ -758,10 +758,14 @@ def known_typeparser_grammar_gaps(case, vio):
     """type-grammar.lark has no production for: primitives other than its TYPE list (float16, float128, complex*, datetime64,
     timedelta64), records/tuples/unions without members, named tuples, record names that are not purely letters or that are
     grammar words"""
-    if case["part"] != "D" or not vio["bucket"].startswith("D:parse_error:Unexpected"):
+    if case["part"] != "D":
         return False
-    return bool(d_features(case, _d_text(case)) & {"primitive_outside_grammar", "empty_record", "named_tuple", "record_name_not_letters",
-                                                   "record_name_is_grammar_word"})
+    f = d_features(case, _d_text(case))
+    if "record_name_is_grammar_word" in f and vio["bucket"] in ("D:structure", "D:reprint", "D:not_equal"):
+        return True        # `union[...]`, `tuple[...]`, `struct[...]` printed for a record of that name are read as the grammar's own construct
+    if not vio["bucket"].startswith("D:parse_error:Unexpected"):
+        return False
+    return bool(f & {"primitive_outside_grammar", "empty_record", "named_tuple", "record_name_not_letters", "record_name_is_grammar_word"})
 
 
 def known_typeparser_json_literals(case, vio):
